@@ -175,6 +175,10 @@ func (c *gen) lit() *Expr {
 		rs[i] = c.rune_()
 	}
 	e := &Expr{K: KLit, Val: []byte(string(rs))}
+	if c.chance(3, "msglit") {
+		// values that look like the glue of a message: the separators of a list, format verbs
+		e.Val = []byte(Pick(c.t, []string{", ", " or ", "%d", "%!s(", "a, b", "%", ": ", "\"", "!"}, "msglitval"))
+	}
 	if c.cfg.ByteLits && c.chance(6, "bytelit") {
 		// one or two bytes that are not UTF-8 (written as \xhh / \ooo; no i flag: lower-casing
 		// is defined on runes)
